@@ -33,12 +33,17 @@ def UOW():
                      Node('a_bwo', 'a', 'b_wo', kinds=('f',)), Node('x', 'R', 'x', True)], 'UOW')
 
 
+def UOD():
+    """a dotted sibling that sorts between a directory and its children ('/a' < '/a.b' < '/a/b')"""
+    return Universe([Node('a', 'R', 'a'), Node('adb', 'R', 'a.b'), Node('a_b', 'a', 'b'), Node('x', 'R', 'x', True)], 'UOD')
+
+
 def UO4():
     return Universe([Node('a', 'R', 'a'), Node('ab', 'R', 'ab'), Node('a_b', 'a', 'b'), Node('a_b_c', 'a_b', 'c'),
                      Node('x', 'R', 'x', True)], 'UO4')
 
 
-UNIVERSES.update({'UO3': UO3, 'UOW': UOW, 'UO4': UO4})
+UNIVERSES.update({'UO3': UO3, 'UOW': UOW, 'UO4': UO4, 'UOD': UOD})
 
 
 def layer_configs(u, nlayers, max_nodes=None):
